@@ -65,13 +65,13 @@ def Emb : Spec.Expr → Node → Prop
   | .list as, n => ∃ p p' ops, n = .toList p (.loadList (S "<load_list>") p' ops.reverse) ∧ EmbL as ops
   | .key v, n => ∃ p, n = .keyAcc p v
   | .movie v, n => (∃ p, n = .leaf .propName (.s v) p) ∨
-      (∃ p q o, n = .propAcc p (.leaf .localVar (.s o) q) v ∧ Lscr.startsWith o (S "_") = true)
-  | .the .sys k [], n => ∃ p q o, n = .propAcc p (.leaf .localVar (.s o) q) (Spec.nameOrUnknown Spec.tblSys k) ∧
+      (∃ p q o, n = .propAcc p (.leaf .localVar (.s o) q) v false ∧ Lscr.startsWith o (S "_") = true)
+  | .the .sys k [], n => ∃ p q o, n = .propAcc p (.leaf .localVar (.s o) q) (Spec.nameOrUnknown Spec.tblSys k) false ∧
       (Lscr.startsWith o (S "_") = true ∨ o = S "tell_obj")
   | .the .special k [], n => ∃ p, n = .leaf .propName (.s (Spec.nameOrUnknown Spec.tblSpecial k)) p
   | .the t k [e], n => ∃ p q cls tb w nm, theTbl t = some (cls, tb, w) ∧ idxName e = some nm ∧
-      n = .propAcc p (.leaf cls nm q) (Spec.nameOrUnknown tb k)
-  | .oprop v o, n => ∃ p x, n = .propAcc p x v ∧ Emb o x
+      n = .propAcc p (.leaf cls nm q) (Spec.nameOrUnknown tb k) false
+  | .oprop v o, n => ∃ p x, n = .propAcc p x v true ∧ Emb o x
   | _, _ => False
 /-- argument lists, in source order (the model stores them in pop order = reversed) -/
 def EmbL : List Spec.Expr → List Node → Prop
@@ -97,13 +97,13 @@ def EmbH (hs : List Spec.Name) : Spec.Expr → Node → Prop
   | .list as, n => ∃ p p' ops, n = .toList p (.loadList (S "<load_list>") p' ops.reverse) ∧ EmbLH hs as ops
   | .key v, n => ∃ p, n = .keyAcc p v
   | .movie v, n => (∃ p, n = .leaf .propName (.s v) p) ∨
-      (∃ p q o, n = .propAcc p (.leaf .localVar (.s o) q) v ∧ Lscr.startsWith o (S "_") = true)
-  | .the .sys k [], n => ∃ p q o, n = .propAcc p (.leaf .localVar (.s o) q) (Spec.nameOrUnknown Spec.tblSys k) ∧
+      (∃ p q o, n = .propAcc p (.leaf .localVar (.s o) q) v false ∧ Lscr.startsWith o (S "_") = true)
+  | .the .sys k [], n => ∃ p q o, n = .propAcc p (.leaf .localVar (.s o) q) (Spec.nameOrUnknown Spec.tblSys k) false ∧
       (Lscr.startsWith o (S "_") = true ∨ o = S "tell_obj")
   | .the .special k [], n => ∃ p, n = .leaf .propName (.s (Spec.nameOrUnknown Spec.tblSpecial k)) p
   | .the t k [e], n => ∃ p q cls tb w nm, theTbl t = some (cls, tb, w) ∧ idxName e = some nm ∧
-      n = .propAcc p (.leaf cls nm q) (Spec.nameOrUnknown tb k)
-  | .oprop v o, n => ∃ p x, n = .propAcc p x v ∧ EmbH hs o x
+      n = .propAcc p (.leaf cls nm q) (Spec.nameOrUnknown tb k) false
+  | .oprop v o, n => ∃ p x, n = .propAcc p x v true ∧ EmbH hs o x
   | _, _ => False
 def EmbLH (hs : List Spec.Name) : List Spec.Expr → List Node → Prop
   | [], ns => ns = []
@@ -144,7 +144,7 @@ def EmbLv : Spec.Expr → Node → Prop
   | .var .loc v, n => ∃ p, n = .leaf .localVar (.s v) p
   | .var .param v, n => ∃ p, n = .leaf .paramName (.s v) p
   | .var .glob v, n => ∃ p, n = .leaf .globalVar (.s v) p
-  | .var .prop v, n => ∃ p q, n = .propAcc p (.leaf .node (.s (S "me")) q) v
+  | .var .prop v, n => ∃ p q, n = .propAcc p (.leaf .node (.s (S "me")) q) v false
   | .the t k as, n => Emb (.the t k as) n      -- `set the <p> [of sprite n] = v`: the node `the <p> …` reads
   | .oprop v o, n => Emb (.oprop v o) n
   | _, _ => False
@@ -218,12 +218,12 @@ def gvClash (f : Spec.Name) : List Spec.Expr → Bool
   | .sym _ :: _ => Lscr.listHas Drx.Gen.PropTables.listFunctions (Lscr.pyLower f)
   | _ => false
 
-/-- the object of `the <p> of <obj>`: `PropertyAccessorOperation.generate_lingo` drops an object whose TEXT starts with `_` or is
-    `tell_obj` (meant for the synthetic owners `_movie`, `_system`, `tell_obj`; finding: it also hits user variables of such
-    names) and prints an object `me` of class Node as a bare property -/
+/-- the object of `the <p> of <obj>` (opcodes 61 / 62; since the repair of F142 the accessor node carries `explicit_obj`, so the
+    object is never taken for a synthetic owner): only a variable called `me` is excluded (an object whose text is `me` AND whose
+    class is the plain Node of a declared-property assignment prints as a bare property — never the case here, but the text
+    test is what the fragment states) -/
 def objOk : Spec.Expr → Bool
-  | .var _ v => !Lscr.startsWith v (S "_") && v != S "tell_obj" && v != S "me"
-  | .call f _ => !Lscr.startsWith f (S "_")
+  | .var _ v => v != S "me"
   | _ => true
 
 mutual
